@@ -271,6 +271,6 @@ pub fn property() -> Property {
     level: "fault_enumeration",
     rule: "honest tuples (public key, tag, input point, output point, c, s) from generated servers / inputs / tags incl. repeated identical requests; completeness in original form and after bincode (key) and JSON (evaluation) round trips; nonce check: commitments s*G + c*PK_tag recomputed with curve25519-dalek are pairwise different across all proofs of the case; soundness: each of the six components replaced in turn by another honest value of the same type (other request / tag / server), a neighbouring value (+-1 on scalars, single bit flips at generated positions of every encoding), the identity / zero, an undecodable string, swapped scalars - every such tuple must be rejected (at decode or by the proof equation). Public-key tampering is limited to the base point, the verified tag's entry and another server's whole key. Non-trivial: a tampered tuple whose every component still decodes; distinct by the tuple.",
     assumptions: vec!["server keys and proof nonces come from OsRng", "bincode form of proof = c || s, of the key = base, u64 count, (u8, point)*"],
-    subs: vec![prop_sub("completeness_soundness_nonce", 1500, 40000, strat, oracle)],
+    subs: vec![prop_sub("completeness_soundness_nonce", 1500, 80000, strat, oracle)],
   }
 }
